@@ -6,6 +6,7 @@ package jsonpath
 import (
 	"encoding/json"
 	"fmt"
+	"strconv"
 
 	"github.com/spyzhov/ajson"
 	// Using gopkg.in/yaml.v3 instead of sigs.k8s.io/yaml on purpose.
@@ -102,7 +103,14 @@ func Set(obj map[string]interface{}, expression string, value interface{}) (int,
 		case string:
 			err = node.SetString(typedValue)
 		case int:
-			err = node.SetNumeric(float64(typedValue))
+			// Not SetNumeric(float64(...)): integers beyond 2^53 would be
+			// rounded. Parse the decimal text instead, which ajson keeps as is.
+			var intValue *ajson.Node
+			intValue, err = ajson.Unmarshal([]byte(strconv.Itoa(typedValue)))
+			if err != nil {
+				break
+			}
+			err = node.SetNode(intValue)
 		case float64:
 			err = node.SetNumeric(typedValue)
 		case []interface{}:
